@@ -55,34 +55,89 @@ def observe_prims(A, boundgeom, fails, site):
     return out
 
 
+LIGHT_CLASS = {'BoundPointLight': 0, 'BoundDirectionalLight': 1, 'BoundSpotLight': 2, 'BoundAmbientLight': 3}
+
+
+def target_of(A, kind, o):
+    if kind == 'controller' and type(o).__name__ == 'BoundSkin':
+        return A.get(o.skin.id, BAD)
+    return A.get(o.original.id, BAD)
+
+
+def inspect(A, kind, o, fails):
+    """everything the property talks about, read off one bound object"""
+    if kind == 'geometry':
+        return {'target': target_of(A, kind, o), 'M': ints(o.matrix), 'prims': observe_prims(A, o, fails, 'geometry')}
+    if kind == 'controller':
+        if type(o).__name__ == 'BoundSkin':
+            return {'target': target_of(A, kind, o), 'M': ints(o.matrix),
+                    'skin': {'M': ints(o.geometry.matrix), 'prims': observe_prims(A, o.geometry, fails, 'controller')}}
+        return {'target': target_of(A, kind, o), 'M': ints(o.matrix), 'skin': None}
+    if kind == 'camera':
+        return {'target': target_of(A, kind, o), 'M': ints(o.matrix), 'pos': ints(o.position), 'dir': ints(o.direction),
+                'up': ints(o.up)}
+    g = lambda n: None if getattr(o, n, None) is None else ints(getattr(o, n))
+    return {'target': target_of(A, kind, o), 'kind': LIGHT_CLASS.get(type(o).__name__, 9),
+            'pos': g('position'), 'dir': g('direction'), 'up': g('up')}
+
+
+def brief(A, kind, o):
+    """identity of a yielded object at the moment it is yielded: target and placement"""
+    if kind == 'light':
+        g = lambda n: None if getattr(o, n, None) is None else ints(getattr(o, n))
+        return [target_of(A, kind, o), g('position'), g('direction')]
+    return [target_of(A, kind, o), ints(o.matrix)]
+
+
+def brief_of_struct(kind, s):
+    if kind == 'light':
+        return [s['target'], s['pos'], s['dir']]
+    return [s['target'], s['M']]
+
+
 def observe(doc, A, fails):
-    obs = {}
+    """The main observation COLLECTS each traversal first (list(scene.objects(kind))) and inspects the objects
+    afterwards - the usual way of using the result, and the one in which an object must not depend on
+    anything the traversal did after yielding it.  Then the same traversals are repeated streaming,
+    interleaved with one another, and with a suspended traversal in the background."""
     sc = doc.scene
-    o = []
-    for bg in sc.objects('geometry'):
-        o.append({'target': A.get(bg.original.id, BAD), 'M': ints(bg.matrix), 'prims': observe_prims(A, bg, fails, 'geometry')})
-    obs['geometry'] = o
-    o = []
-    for bc in sc.objects('controller'):
-        name = type(bc).__name__
-        if name == 'BoundSkin':
-            o.append({'target': A.get(bc.skin.id, BAD), 'M': ints(bc.matrix),
-                      'skin': {'M': ints(bc.geometry.matrix), 'prims': observe_prims(A, bc.geometry, fails, 'controller')}})
-        else:
-            o.append({'target': A.get(bc.original.id, BAD), 'M': ints(bc.matrix), 'skin': None})
-    obs['controller'] = o
-    o = []
-    for bc in sc.objects('camera'):
-        o.append({'target': A.get(bc.original.id, BAD), 'M': ints(bc.matrix), 'pos': ints(bc.position),
-                  'dir': ints(bc.direction), 'up': ints(bc.up)})
-    obs['camera'] = o
-    o = []
-    kinds = {'BoundPointLight': 0, 'BoundDirectionalLight': 1, 'BoundSpotLight': 2, 'BoundAmbientLight': 3}
-    for bl in sc.objects('light'):
-        g = lambda n: None if getattr(bl, n, None) is None else ints(getattr(bl, n))
-        o.append({'target': A.get(bl.original.id, BAD), 'kind': kinds.get(type(bl).__name__, 9),
-                  'pos': g('position'), 'dir': g('direction'), 'up': g('up')})
-    obs['light'] = o
+    obs = {}
+    for kind in c12docs.KINDS:
+        objs = list(sc.objects(kind))
+        obs[kind] = [inspect(A, kind, o, fails) for o in objs]
+    want = {k: [brief_of_struct(k, x) for x in obs[k]] for k in c12docs.KINDS}
+
+    def differ(site, kind, got):
+        if got != want[kind] and len(fails) < 4:
+            fails.append({'clause': 'one-per-path-in-order', 'site': site,
+                          'detail': 'Scene.objects(%r) %s yielded %d objects %r; collected first it yields %d: %r'
+                                    % (kind, site, len(got), got[:4], len(want[kind]), want[kind][:4])})
+    # streaming: every object looked at the moment it is yielded
+    for kind in c12docs.KINDS:
+        differ('streamed', kind, [brief(A, kind, o) for o in sc.objects(kind)])
+    # a traversal suspended after its first object must not disturb (or be disturbed by) a complete one
+    g = sc.objects('geometry')
+    head = [brief(A, 'geometry', o) for o in [next(g, None)] if o is not None]
+    for kind in ('geometry', 'light'):
+        differ('beside-a-suspended-traversal', kind, [brief(A, kind, o) for o in sc.objects(kind)])
+    differ('resumed-after-suspension', 'geometry', head + [brief(A, 'geometry', o) for o in g])
+    # two traversals advanced alternately
+    for k1, k2 in (('geometry', 'geometry'), ('geometry', 'light'), ('controller', 'camera')):
+        g1, g2 = sc.objects(k1), sc.objects(k2)
+        r1, r2, live1, live2 = [], [], True, True
+        while live1 or live2:
+            if live1:
+                o = next(g1, None)
+                live1 = o is not None
+                if live1:
+                    r1.append(brief(A, k1, o))
+            if live2:
+                o = next(g2, None)
+                live2 = o is not None
+                if live2:
+                    r2.append(brief(A, k2, o))
+        differ('interleaved-with-%s' % k2, k1, r1)
+        differ('interleaved-with-%s' % k1, k2, r2)
     return obs
 
 
@@ -164,12 +219,6 @@ def run_case(lib, case):
     want = c12docs.expected(lib, case)
     for kind in c12docs.KINDS:
         compare(kind, obs[kind], want[kind], fails)
-    # iterating again yields the same sequence (nothing is consumed or cached by a traversal)
-    again = [(A.get(bg.original.id, BAD), ints(bg.matrix)) for bg in doc.scene.objects('geometry')]
-    first = [(o['target'], o['M']) for o in obs['geometry']]
-    if again != first and len(fails) < 4:
-        fails.append({'clause': 'one-per-path-in-order', 'site': 'second-traversal',
-                      'detail': 'a second Scene.objects(\'geometry\') yielded %d objects %r, the first %d' % (len(again), again[:6], len(first))})
     flat = {k: [c12docs.flatten(k, s) for s in obs[k]] for k in c12docs.KINDS}
     return {'obs': flat, 'fails': fails}
 
